@@ -41,6 +41,7 @@ type wsOut struct {
 	Handshake bool   `json:"handshake"` // client read a 101 and the upstream saw the relayed request
 	UpEnd     string `json:"upend"`
 	Served    bool   `json:"served"`
+	EofSeen   bool   `json:"eof_seen"`
 }
 
 const ws101 = "HTTP/1.1 101 Switching Protocols\r\nUpgrade: websocket\r\nConnection: Upgrade\r\nSec-WebSocket-Accept: s3pPLMBiTxaQ9kYGzzhZRbK+xOo=\r\n\r\n"
@@ -236,16 +237,24 @@ func runWSOnce(raw json.RawMessage, attempt int) (interface{}, error) {
 			c.CloseWrite()
 		}
 	}
+	// the client finishes first: the upstream must be told (see runTunnelOnce); soft bound, an observation
+	eofSeen := true
+	upSawEnd := func() {
+		if waitFor(softT(attempt)+time.Duration(in.Burst>>20)*time.Second, nil, uep.ended) != wOK {
+			softHits++
+			eofSeen = false
+		}
+	}
 	switch in.Order {
 	case "client":
 		cc.(*net.TCPConn).CloseWrite() // FIN behind the data; the client keeps reading
-		must("the upstream to see the end of the client's stream", waitFor(2*hardT, nil, uep.ended))
+		upSawEnd()
 		finishUpstream()
 	case "upstream":
 		finishUpstream()
 	case "halfclose":
 		cc.(*net.TCPConn).CloseWrite()
-		must("the upstream to see the end of the client's stream", waitFor(hardT, nil, uep.ended))
+		upSawEnd()
 		writeSegs(uep.c(), reply, false)
 		finishUpstream()
 	}
@@ -278,8 +287,8 @@ func runWSOnce(raw json.RawMessage, attempt int) (interface{}, error) {
 			wantCl = append(wantCl, u...)
 		}
 	}
-	expected := bytes.Equal(upb[:headLen], wantUp) && bytes.Equal(clb, wantCl) && bgot == in.Burst && bok
-	return wsOut{expected: expected, Up: hx2(upb[:headLen]), Cl: hx2(clb), BurstGot: bgot, BurstOK: bok, Handshake: true, UpEnd: upend, Served: served}, nil
+	expected := bytes.Equal(upb[:headLen], wantUp) && bytes.Equal(clb, wantCl) && bgot == in.Burst && bok && eofSeen
+	return wsOut{EofSeen: eofSeen, expected: expected, Up: hx2(upb[:headLen]), Cl: hx2(clb), BurstGot: bgot, BurstOK: bok, Handshake: true, UpEnd: upend, Served: served}, nil
 }
 
 func genWSWith(r *hx.Rand, order string) wsIn {
